@@ -442,6 +442,24 @@ func checkEngineTables(c *Ctx, r *Report, clause string) {
 		ss = append(ss, w.pos(f.Pos()))
 	}
 	ruleSetEqual(c, r, clause, "engine:oneof==consts", "the engines accepted by configuration validation are the declared RoutingEngine constants", "oneof of RoutesConfig.Engine", oneof, "RoutingEngine* constants", consts, ss)
+	{
+		// ... and the empty engine is not accepted either: `oneof` alone is skipped for an omitted
+		// value under `omitempty`
+		v := ""
+		rules := strings.Split(tag, ",")
+		has := func(x string) bool {
+			for _, ru := range rules {
+				if ru == x {
+					return true
+				}
+			}
+			return false
+		}
+		if !has("required") || has("omitempty") {
+			v = "RoutesConfig.Engine is validated with `" + tag + "`: an omitted engine passes validation and reaches the engine switches of the routes generator, whose default arm panics"
+		}
+		r.add(clause, "tagrule", "engine:required", "a validated configuration always names an engine", []string{"definitions.RoutesConfig.Engine"}, ss, v)
+	}
 	for _, fnk := range []string{"generator/routes.getDefaultTemplate", "generator/routes.registerPartials"} {
 		fi := need(c, r, clause, fnk)
 		if fi == nil {
